@@ -71,3 +71,11 @@ def extend(n=4, mode="safety", timeout=300, tier="both"):
                 units=["lib/lha_file_header.c:extend_raw_data,lha_file_header_free"], timeout=timeout, mem_gb=4, tier=tier,
                 stubs=["realloc: CBMC's moving model (new block, old block freed), may return NULL", "lha_input_stream_read: writes the requested bytes into the destination or fails"],
                 bounds="old raw length 0..%d, stream 0..%d bytes, nbytes arbitrary (64 bit)" % (n, n))
+
+
+def whole(level, smax=40, timeout=1800, tier="thorough", mode="functional"):
+    return dict(name="whole.l%d.s%d%s" % (level, smax, ".safe" if mode == "safety" else ""), src="hdr/whole.c", defines=["S_MAX=%d" % smax, "LEVEL=%d" % level], rename_defs=RN,
+                extra_srcs=["lib/lha_endian.c", "lib/crc16.c"], mode=mode, unwind=smax + 2, no_shift_check=True,
+                unwindset={"ext_header_for_num.0": 12, "lha_crc16_buf.0": smax + 10, "decode_extended_headers.0": smax // 3 + 2, "read_l1_extended_headers.0": smax // 3 + 2},
+                units=HDR_UNITS + ["lha_file_header_read (complete, level %d)" % level], timeout=timeout, mem_gb=10, tier=tier, stubs=HDR_STUBS + ["calloc/free of the header block: typed slot"],
+                bounds="arbitrary input of 0..%d bytes with level byte %d, everything else symbolic; whole parser, no callee stubs except the block allocation" % (smax, level))
